@@ -20,7 +20,10 @@ CHECKS: dict[str, dict] = {
                 "read/write errors, disconnects. distinct = distinct abstract traces (sequence of echo/reply "
                 "decision classes and caller outcomes); non-trivial = at least one fault fired while a send was in flight",
         "real": REAL_TX, "stub": STUB_RF,
-        "assumptions": ["exploration by seeded sampling, not exhaustive", "80 % serial dongle (evofw3 / HGI80), 20 % a ramses_esp gateway behind an MQTT broker (real MqttTransport, fake paho client: "
+        "assumptions": ["exploration by seeded sampling, not exhaustive", "callers use the protocol's send_cmd (50 %), the Engine's async_send_cmd "
+                        "(33 %) or the Gateway's send_cmd Task wrapper (17 %; there the fabricated replies are also dispatched to devices, whose "
+                        "handlers' exceptions are not the sender's and are only counted)", "start-up: the dongle echoes the signature poll at "
+                        "once, only at the n-th poll, or never (the transport then connects without knowing its own id)", "80 % serial dongle (evofw3 / HGI80), 20 % a ramses_esp gateway behind an MQTT broker (real MqttTransport, fake paho client: "
                         "publish = transmission, echo and replies arrive as JSON on <topic>/rx, offline/online status = pause/resume)",
                         "firmware/responder are models written from the protocol comments"],
     },
